@@ -142,31 +142,7 @@ def run(ctx):
     ctx.floor("R-C10-4", "visited_structures", len(guards), 1)
 
     # ------------------------------------------------------------------ R-C10-3
-    ctx.rule("R-C10-3", "the adjacency maps the searches walk are only ever extended: a whole-entry insert into them happens only for a node that is new")
-    from effects import Effects
-    from engines import canon_exists
-    from graphrules import index_events, direct_index_access, SUCC, PRED
-    from props.c01 import controlling_atoms
-    from flow import fmt_desc
+    from graphrules import adjacency_entries_only_for_new_nodes
 
-    effects = Effects(prog, flows)
-    n_ins = 0
-    for p in sorted(direct_index_access(prog)):
-        b = prog.bodies[p]
-        fl = flows.of(b)
-        for (bb, site, f, k) in index_events(effects, b):
-            if f not in (SUCC | PRED) or f.endswith("_vec") or k != "HashMap::insert":
-                continue
-            if getattr(site, "k", None) != "call" or not site.callee or not site.callee.short.endswith("HashMap::insert"):
-                continue
-            # only inserts on the store itself (an entry of the OUTER map), not into a neighbour set
-            rd = fl.field_path(site.args[0].place) if site.args and site.args[0].place is not None else ""
-            n_ins += 1
-            fresh = False
-            for (t, v, a) in controlling_atoms(fl, bb):
-                ce = canon_exists(fl, t, v, a)
-                if ce is not None and ce[2] is False and (fmt_desc(ce[0]).endswith("nodes_map") or fmt_desc(ce[0]).endswith(f)):
-                    fresh = True
-            ctx.require(fresh, "R-C10-3", "insert|%s|%s" % (b.short, f), "the entry of `%s` is (re)created in %s only for a key that is not present yet" % (f, b.short.split("::")[-1]), "`%s`.insert in %s is not limited to new nodes: re-adding an existing node replaces its adjacency entry with a fresh one, so searches that walk `%s` stop at that node" % (f, b.short, f), loc_str(site.span))
-    ctx.floor("R-C10-3", "adjacency_entry_inserts", n_ins, 2)
+    adjacency_entries_only_for_new_nodes(ctx, prog, flows, "R-C10-3", "so searches that walk `%s` stop at that node")
     ctx.note("bfs_equal_size_partitions and breadth_first_search have no error channel; they cannot refuse and are handled under C20")
